@@ -87,6 +87,11 @@ theorem write_is_spec_encoding (d : Nat) (fs : List (UF d)) (h : fs.all (wt d) =
     writeUFs d fs = .ok (ufSpecEncs d fs) ∧ lenUFs d fs = .ok (ufSpecEncs d fs).length :=
   writeUFs_eq_spec d fs h
 
+/-- GetUnknownFields on a struct, or a non-nil pointer to a struct, whose `_unknownFields` field holds b is
+    ConvertUnknownFields b (so everything above applies to it). -/
+theorem getUF_eq_convert (b : Bytes) :
+    getUF (.structPtr b) = liftConv (convertUF b) ∧ getUF (.structVal b) = liftConv (convertUF b) := ⟨rfl, rfl⟩
+
 /-- The byte domain is a restriction of the shared Thrift grammar (Spec/Grammar `refLen`): the only extra
     requirement of `encLen` is that BOOL bytes are 0 or 1. -/
 theorem enc_is_grammar (d : Nat) (t : UInt8) (b : Bytes) (k : Nat) (h : encLen d t b = some k) :
